@@ -12,13 +12,14 @@ every join of the main thread is recorded at the instant it takes effect and rep
 
 Import only after `detsched.install()` in workers.
 """
+import asyncio
 import random
 import threading
 
 import detsched
 
 import mpservice.threading as mp_threading
-from mpservice.mpserver import (EnsembleServlet, SequentialServlet, Server, ServerBacklogFull, SwitchServlet,
+from mpservice.mpserver import (AsyncServer, EnsembleServlet, SequentialServlet, Server, ServerBacklogFull, SwitchServlet,
                                 ThreadServlet, TimeoutError, Worker)
 from mpservice.mpserver._worker import _SimpleThreadQueue
 from mpservice.multiprocessing.remote_exception import EnsembleError
@@ -98,7 +99,8 @@ def gen_case(rng: random.Random, tier: str, bias: str = ''):
     ch = rng.choice([('random', early), ('random', early), ('sticky', 0.2, early), ('sticky', 0.05, early),
                      ('pct', 2, 800, early), ('pct', 3, 800, early)])
     return dict(tree=tree, fail=fail, cap=rng.choice([1, 2, 4, 8] if not heavy else [4, 8]), sessions=[w1, w2], nreq=r,
-                flatten=rng.random() < 0.5, chooser=list(ch), seed=rng.randrange(1 << 30))
+                flatten=rng.random() < 0.5, chooser=list(ch), seed=rng.randrange(1 << 30),
+                **({'async': True} if rng.random() < 0.25 else {}))
 
 
 def boundary_cases():
@@ -115,7 +117,7 @@ def boundary_cases():
                   dict(kind='call', reqs=[dict(r=4, dur=3, failsv=-1, timeout=0.5)])]
             wl2 = [dict(kind='call', reqs=[dict(r=5, dur=1, failsv=-1, timeout=FOREVER)])]
             out.append(dict(tree=t, fail=list(f) if f else None, cap=4, sessions=[wl, wl2], nreq=6, flatten=bool(k % 2),
-                            chooser=['random', 0.08], seed=1000 + k))
+                            chooser=['random', 0.08], seed=1000 + k, **({'async': True} if k % 3 == 2 else {})))
             k += 1
     return out
 
@@ -440,6 +442,121 @@ def run_case(case):
                                 detail=f'session {k}: backlog {srv.backlog} after __exit__ (entries of overtaken results survive into the next __enter__)'))
         return mon
 
+    async def amain(base, main_id):
+        """the same life cycle on AsyncServer (`__aenter__` / `__aexit__`, async call / stream)"""
+        srv = AsyncServer(build(tree, 0, ctx, case['flatten']), capacity=case['cap'])
+        mon = []
+        if case['fail'] is not None:
+            st['phase'] = 'enter-fail'
+            ctx['armed'] = True
+            del ev[:]
+            err = 'none'
+            try:
+                await srv.__aenter__()
+                await srv.__aexit__(None, None, None)
+            except InitError as e:
+                err = f'{e.args[0]}:{e.args[1]}'
+            except BaseException as e:  # noqa
+                if isinstance(e, detsched.Abort):
+                    raise
+                err = 'other:' + repr(e)
+            ctx['armed'] = False
+            left = live(base)
+            st['start'] = dict(err=err, launched=[(e[1], e[2]) for e in ev if e[0] == 'init'],
+                               alive=sorted(ts.name for ts in left))
+            want = f'{case["fail"][0]}:{case["fail"][1]}'
+            if err != want:
+                mon.append(dict(prop='C11', rule='start-error', detail=f'__aenter__ raised {err}, the failing worker is {want}'))
+            if left:
+                mon.append(dict(prop='C11', rule='start-leak',
+                                detail=f'threads still running after the failed __aenter__: {sorted(ts.name for ts in left)}'))
+                return mon
+        for k, workload in enumerate(case['sessions']):
+            st['phase'] = f'enter{k}'
+            del raw[:]
+            del ev[:]
+            await srv.__aenter__()
+            N = number_server(tree, srv)
+            N.entry = N.q2c[id(srv._input_buffer)]
+            sess = dict(N=N, main_id=main_id, final=0, ledger=None, raw=None)
+            st['sessions'].append(sess)
+            if k == 0:
+                tids, unknown = [], []
+                for ts in live(base):
+                    tid = N.t2tid.get(id(ts.thread))
+                    if tid is not None:
+                        tids.append(tid)
+                    else:
+                        unknown.append(ts.name)
+                st['start_ok'] = dict(err='none', launched=[(e[1], e[2]) for e in ev if e[0] == 'init'],
+                                      alive=sorted(tids), unknown=unknown)
+            del raw[:]
+            st['phase'] = f'work{k}'
+
+            async def do_call(q):
+                try:
+                    y = await srv.call((q['r'], q['dur'], q['failsv'], ()), timeout=q['timeout'], backpressure=False)
+                    out = ('ok', norm(y)[0])
+                except ServerBacklogFull:
+                    out = ('full',)
+                except TimeoutError:
+                    out = ('timeout',)
+                except WorkErr as e:
+                    out = ('err', e.r)
+                except EnsembleError:
+                    out = ('err', q['r'])
+                outcomes[q['r']] = (out, q['timeout'])
+
+            async def caller(spec):
+                if spec['kind'] == 'call':
+                    for q in spec['reqs']:
+                        await do_call(q)
+                else:
+                    async def agen():
+                        for it in spec['items']:
+                            yield (it['r'], it['dur'], it['failsv'], ())
+                    n = 0
+                    try:
+                        ag = srv.stream(agen(), return_x=True, return_exceptions=spec['rexc'], timeout=FOREVER)
+                        async for x, y in ag:
+                            n += 1
+                            if spec['stop_after'] is not None and n == spec['stop_after']:
+                                await ag.aclose()
+                                break
+                    except (WorkErr, EnsembleError):
+                        pass
+
+            await asyncio.gather(*[caller(spec) for spec in workload])
+            if k == 1:
+                q = dict(r=case['nreq'], dur=1, failsv=-1, timeout=FOREVER)
+                await do_call(q)
+                if outcomes.get(q['r'], (None,))[0] != ('ok', q['r']):
+                    mon.append(dict(prop='C11', rule='reenter-serve',
+                                    detail=f'follow-up request on the re-entered server got {outcomes.get(q["r"])}'))
+            st['phase'] = f'exit{k}'
+            await srv.__aexit__(None, None, None)
+            sess['final'] = 1
+            sess['ledger'] = srv.backlog
+            sess['raw'] = list(raw)
+            st['phase'] = f'after{k}'
+            left = live(base)
+            if left:
+                mon.append(dict(prop='C11', rule='exit-leak',
+                                detail=f'session {k}: threads alive after __aexit__: {sorted(ts.name for ts in left)}'))
+                return mon
+            if srv.backlog != 0:
+                mon.append(dict(prop='C11', rule='ledger-leak',
+                                detail=f'session {k}: backlog {srv.backlog} after __aexit__'))
+        return mon
+
+    def main_async():
+        import cooploop
+        cooploop.install()
+        base = {ts.tid for ts in detsched.SCHED.order if not ts.done}
+        return asyncio.run(amain(base, id(threading.current_thread())))
+
+    if case.get('async'):
+        main = main_async
     chooser = detsched.make_chooser(tuple(case['chooser']), case['seed'])
     v, e, s = detsched.run(main, chooser, max_steps=case.get('max_steps', 120000))
     res = dict(steps=s.steps, switches=s.switches, monitors=[], phase=st['phase'])
